@@ -415,3 +415,62 @@ def run_stateful_check(prop, tier, seed, work, *, mc_list, groups, key_fn, level
         cov.update(extra_cov)
     write_evidence(prop, tier, seed, level, cov, assumptions, time.time() - t0, violations=nviol)
     return rc_all
+
+
+def binding_selftest(trace_path, trace, work, boundary=None, k=6, seed=1):
+    """Binding demonstration: corrupt single recorded observations of an accepted trace (flip a verdict, bump a number in a
+    projected state, drop an event) and confirm that the trace specification rejects each corrupted trace.
+    Returns dict(tried=, rejected=, missed=[...]) - recorded in the evidence; a miss is a weakness of the check, not a
+    verdict about the code."""
+    import random
+    rnd = random.Random(seed)
+    with open(trace_path) as f:
+        lines = f.readlines()
+    # work on one run only (from an init line to the next) to keep it fast
+    starts = [i for i, l in enumerate(lines) if '"ev":"init"' in l] or [0]
+    s0 = rnd.choice(starts)
+    nxt = [i for i in starts if i > s0]
+    seg = lines[s0:(nxt[0] if nxt else min(len(lines), s0 + 400))]
+    if len(seg) < 5:
+        return dict(tried=0, rejected=0, missed=[])
+    tried, rejected, missed = 0, 0, []
+    flips = [('"ok":true', '"ok":false'), ('"ok":false', '"ok":true'), ('"accept":true', '"accept":false'), ('"accept":false', '"accept":true'),
+             ('"admitted":true', '"admitted":false'), ('"admitted":false', '"admitted":true'), ('"impl":true', '"impl":false'),
+             ('"impl":false', '"impl":true'), ('"same":true', '"same":false'), ('"identical":true', '"identical":false')]
+    for t in range(k * 6):
+        if tried >= k:
+            break
+        i = rnd.randrange(1, len(seg))
+        ln = seg[i]
+        how = None
+        cands = [(a, b) for a, b in flips if a in ln]
+        nums = list(re.finditer(r'"(power|seq|epoch|nonce|tip|amount|reward|number|cursor|nextPid)":(\d+)', ln))
+        choice = rnd.random()
+        if cands and choice < 0.5:
+            a, b = rnd.choice(cands)
+            new = ln.replace(a, b, 1)
+            how = "flip %s" % a
+        elif nums and choice < 0.85:
+            m = rnd.choice(nums)
+            new = ln[:m.start(2)] + str(int(m.group(2)) + 1) + ln[m.end(2):]
+            how = "bump %s" % m.group(1)
+        elif '"ev":"end"' in ln or '"ev":"commit"' in ln:
+            new = None
+            how = "drop %s event" % ("end" if '"ev":"end"' in ln else "commit")
+        else:
+            continue
+        mutated = seg[:i] + ([new] if new is not None else []) + seg[i + 1:]
+        d = tempfile.mkdtemp(prefix="selftest", dir=work)
+        with open(os.path.join(d, "trace.ndjson"), "w") as f:
+            f.writelines(mutated)
+        try:
+            n, rej = validate_chunk(trace[0], trace[1], d)
+        except Infra:
+            rej = True   # a crash of the validator on a corrupted trace also means "not accepted"
+        tried += 1
+        if rej:
+            rejected += 1
+        else:
+            missed.append("%s at line %d: %s" % (how, i + 1, ln.strip()[:160]))
+        shutil.rmtree(d, ignore_errors=True)
+    return dict(tried=tried, rejected=rejected, missed=missed)
